@@ -70,9 +70,18 @@ def emit(prop, keep):
             for c in clauses:
                 if keep(kid,s,c): out.append({"property":prop,"site":s,"clause":c,"trigger":trig,"status":"open","id":kid,"witness":wit,"reproducer":R+" ("+kid+")","note":note})
     return out
+FIXED={"K2":"dcddfc8","K3":"5cc3fca","K4b":"e0f720c","K5":"e02eb36","K6":"600abae","K7":"1866168","K8":"8dc8aa8","K10":"23e61c3",
+       "K12":"91d0a94","K12b":"91d0a94","K13":"45aa7d9","K15":"27ead7e","K17":"9423546"}
+def finish(prop, L, path):
+    for e in L:
+        h=FIXED.get(e["id"])
+        if h:
+            e["status"]="fixed: "+h
+            e["witness"]="fixed: property=%s %s %s" % (prop, h, e["witness"])
+    json.dump(L, open(path,"w"), indent=1)
+    print(prop, len(L), "entries,", sum(1 for e in L if e["status"]=="open"), "open")
 if __name__=="__main__":
-    json.dump(emit("C04",lambda k,s,c: c!="query:definite-answer-false"), open("/verif/known_findings.d/C04.json","w"), indent=1)
-    print(len(json.load(open("/verif/known_findings.d/C04.json"))))
+    finish("C04", emit("C04",lambda k,s,c: c!="query:definite-answer-false"), "/verif/known_findings.d/C04.json")
 
 R2="known_findings.d/C03_inexact_reproducers.cc"
 BDS4=["BD_Shape::affine_image","BD_Shape::affine_preimage","BD_Shape::generalized_affine_image","BD_Shape::generalized_affine_preimage"]
@@ -125,5 +134,4 @@ if __name__=="__main__":
     for (kid,sites,clauses,trig,wit,note) in F:
         if "query:answer!=exact" in clauses and "query:definite-answer-false" not in clauses and kid in ("K4","K11","K12","K12b"):
             for s in sites: extra.append({"property":"C03","site":s,"clause":"query:definite-answer-false","trigger":trig,"status":"open","id":kid,"witness":wit,"reproducer":R+" ("+kid+")","note":note})
-    json.dump(c03+extra+emit2("C03"), open("/verif/known_findings.d/C03.json","w"), indent=1)
-    print("C03", len(json.load(open("/verif/known_findings.d/C03.json"))))
+    finish("C03", c03+extra+emit2("C03"), "/verif/known_findings.d/C03.json")
